@@ -113,6 +113,13 @@ impl V {
         if p.i == p.b.len() { Some(v) } else { None }
     }
 
+    /// parses one value at the start of `s`; returns it with the number of bytes consumed
+    pub fn parse_prefix(s: &str) -> Option<(V, usize)> {
+        let mut p = P { b: s.as_bytes(), i: 0 };
+        let v = p.value()?;
+        Some((v, p.i))
+    }
+
     /// "default / empty" value of its type (used for the non-triviality count only)
     pub fn is_trivial(&self) -> bool {
         match self {
